@@ -14,8 +14,11 @@ DML_TEXT = ("MC_Dml.tla: one table with PRIMARY KEY, UNIQUE, NOT NULL and CHECK 
             "for some of the selected rows, and DELETEs by key, IS NULL, range and without WHERE. The model itself is checked for ConstraintsHold "
             "(invariant), FailedIsStutter and DeleteExact (action properties). Every history is replayed on the real engine; TLC (TraceEngine.tla) "
             "compares outcome class, affected-row count, full table contents in storage order and the constraint hash indexes with Engine!Apply "
-            "after every statement. ")
-DML_BOUNDS = "Quick: every history of <= 5 statements; thorough: <= 7 statements. "
+            "after every statement. MC_Upsert.tla does the same for the conflict-resolving INSERT variants REPLACE INTO and INSERT ... ON DUPLICATE KEY "
+            "UPDATE (Engine!DoUpsert: rows handled one after the other; conflicts on the primary key, a UNIQUE column, both, an earlier row of the "
+            "same statement; replacements and updates that violate CHECK / UNIQUE / PRIMARY KEY; assignments over the stored row and VALUES(col)) on "
+            "a table with a user-defined index. ")
+DML_BOUNDS = "Quick: every history of <= 5 statements (MC_Upsert: <= 2 after three populated starting points); thorough: <= 7 (MC_Upsert <= 4). "
 
 CHECKS = {
     "C01": dict(
@@ -65,7 +68,8 @@ CHECKS = {
         engine="engine", category="model_checking", technique=T_SEM, design="DESIGN.md section 6 (C05), section 10",
         text="Families F3 (comma / INNER / LEFT / CROSS joins, self joins, three-table joins, joins with derived tables) and F8 (rewrite groups: join "
              "operand order, JOIN ON vs WHERE over the cross product, IN vs EXISTS vs DISTINCT-join semi-join forms, NOT EXISTS vs NOT (EXISTS), NOT IN "
-             "with its own NULL rules). TLC checks on the model that the members of each group are equal on every enumerated database (ThmRewrite, and "
+             "with its own NULL rules, and EXISTS / NOT EXISTS whose correlation is an equality plus a conjunct that reads outer columns only inside BETWEEN "
+             "bounds or an IN list, paired with the plain-comparison formulation). TLC checks on the model that the members of each group are equal on every enumerated database (ThmRewrite, and "
              "NOT IN = NOT EXISTS exactly when no NULL keys), and every rendering is executed on the real engine and validated against EvalQ of its own "
              "AST - plain, after ANALYZE (cost-based join order) and with indexes on the join columns plus ANALYZE (index access paths).",
         note=TRUST + "Quick: T1 <= 2 rows, T2 <= 1 row, variants plain + indexed_analyze; thorough: T2 <= 2 rows, four variants. Join reordering "
@@ -81,7 +85,8 @@ CHECKS = {
         engine="engine", category="model_checking", technique=T_SEM, design="DESIGN.md section 6 (C07), section 10",
         text="Families F4/F4S: every aggregate (COUNT(*), COUNT/SUM/AVG/MIN/MAX with and without DISTINCT, on INTEGER and VARCHAR columns), GROUP BY on "
              "one and two keys and on an expression incl. NULL keys, HAVING with aggregates not in the select list, aggregate queries without GROUP BY "
-             "on empty inputs (exactly one row unless HAVING/LIMIT removes it). Every result is validated by TLC against EvalQ (exact rational AVG "
+             "on empty inputs (exactly one row unless HAVING/LIMIT removes it); family F4M: several aggregating blocks that spell the same aggregate inside "
+             "one statement (UNION ALL / EXCEPT branches, an aggregate over an aggregating derived table, an aggregating CTE). Every result is validated by TLC against EvalQ (exact rational AVG "
              "compared with 10^-6 tolerance), without and with indexes.",
         note=TRUST + "Float columns, -0.0 / NaN group keys are outside the model."),
     "C08": dict(
@@ -95,9 +100,14 @@ CHECKS = {
     "C09": dict(
         engine="engine", category="model_checking", technique=T_ENGINE, design="DESIGN.md section 6 (C09), section 10",
         text=DML_TEXT + "This check reports the mismatches on statements the specification accepts: different rows changed or removed than "
-             "Selected(WHERE), a different affected-row count, rows other than the inserted ones appearing, or the statement being refused.",
+             "Selected(WHERE), a different affected-row count, rows other than the inserted ones appearing, or the statement being refused. "
+             "MC_Where.tla adds the WHERE / SET grammar: 47 predicates (key equality hit / miss, key equality as a conjunct next to a TRUE / FALSE / UNKNOWN "
+             "condition in both orders, OR, IN lists with NULL, BETWEEN, ranges, <>, NOT, literals of another numeric type such as 2.0 and 1.5, comparisons "
+             "with NULL, IS [NOT] NULL, non-boolean truth values WHERE N / 1 / 0 / N - 1) x {DELETE, UPDATE with 4 SET lists incl. a swap and a key shift, the "
+             "SELECT with the same predicate} x 3 primary-key shapes (single column, composite, none) x 2 populated states; Engine!Selected is the one "
+             "definition of the selected rows for all three statement kinds (DeleteExact, UpdateExact, SelectAgrees checked on the model).",
         note=TRUST + DML_BOUNDS + "Thin relative to the property's quantifier: the WHERE shapes are =, >, >=, IS NULL and none on INTEGER columns of one "
-             "table; subqueries and joins in DML are not in this model (index-driven row selection is exercised by MC_Idx)."),
+             "table in MC_Dml; MC_Where: single statements at quick, pairs at thorough; subqueries and joins in DML are not modelled (index-driven row selection is exercised by MC_Idx)."),
     "C10": dict(
         engine="engine", category="model_checking", technique=T_ENGINE, design="DESIGN.md section 6 (C10), section 10",
         text=DML_TEXT + "This check reports every statement that the specification rejects because its effect violates a declared constraint but the "
@@ -125,7 +135,7 @@ CHECKS = {
              "moment of a NO ACTION check open, rejecting the statement is accepted as well (never a partial effect)."),
     "C13": dict(
         engine="engine", category="model_checking", technique=T_ENGINE, design="DESIGN.md section 6 (C13), section 10",
-        text="MC_Txn.tla: every interleaving of INSERT/UPDATE/DELETE on a keyed table, CREATE/DROP of a secondary index, BEGIN/COMMIT/ROLLBACK and "
+        text="MC_Txn.tla: every interleaving of INSERT/UPDATE/DELETE/TRUNCATE on a keyed table, CREATE/DROP of a secondary index, BEGIN/COMMIT/ROLLBACK and "
              "SAVEPOINT/ROLLBACK TO/RELEASE, from four starting points (empty, populated, inside a transaction, inside a transaction after a savepoint and "
              "a change). The model is checked for RollbackRestores / CommitKeeps; every history is replayed and after every statement TLC compares table "
              "contents, the index registry and the contents of every index with the specification state. This check owns mismatches on COMMIT / ROLLBACK "
@@ -159,14 +169,15 @@ CHECKS = {
         engine="engine", category="model_checking", technique=T_ENGINE, design="DESIGN.md section 6 (C18), section 10",
         text="Engine!Apply defines saving and loading back as the identity on tables, rows and index definitions. (a) MC_Persist.tla enumerates rows of "
              "abstract value classes for a table with one column per type class (INTEGER, BIGINT, SMALLINT, DOUBLE PRECISION, VARCHAR, BOOLEAN, DATE, "
-             "TIME, TIMESTAMP): 64-bit extremes, NaN, +-Infinity, -0.0, subnormal, empty / quote / backslash / semicolon / newline / comment-looking / "
-             "Unicode strings, calendar boundaries - each class alone and all classes together, inserted through the storage API - followed by a "
+             "TIME, TIMESTAMP) and a second table with the parameterised types (CHAR(3), CHAR(300), VARCHAR(1000), VARCHAR, NUMERIC(10,2), DECIMAL(5,0), "
+             "REAL, FLOAT): 64-bit extremes, NaN, +-Infinity, -0.0, subnormal, empty / quote / backslash / semicolon / LF / CR LF / CR / tab / "
+             "comment-looking / Unicode strings, strings of 280 and 600 characters, calendar boundaries - each class alone and all classes together, inserted through the storage API - followed by a "
              "reload in binary, compressed and JSON format and SELECT *. (b) A seeded sample of the MC_Idx histories (DML, six index shapes incl. prefix "
              "and UNIQUE) is followed by a reload in each format and ten index-relevant probe queries. After the reload TLC compares rows (exact, "
              "floats as shortest round-trip tokens), column lists, column types and nullability (against what was observed before the reload), the "
              "index registry, the contents of every index, and validates the probe answers against EvalQ.",
-        note=TRUST + "Quick: 156 value-class scenarios + 250 histories x 3 formats; thorough 3 000 histories. Views, triggers, roles and spatial indexes "
-             "are not part of the compared state; NUMERIC/REAL/CHAR/INTERVAL columns are not in the value table."),
+        note=TRUST + "Quick: 243 value-class scenarios + 250 histories x 3 formats; thorough 3 000 histories. Views, triggers, roles and spatial indexes "
+             "are not part of the compared state; INTERVAL columns are not in the value tables."),
     "C19": dict(
         engine="engine", category="model_checking", technique=T_ENGINE, design="DESIGN.md section 6 (C19), section 10",
         text="Same scenarios and comparison as C18 with the SQL dump (save_sql_dump, then vibesql_executor::load_sql_dump into a new database): the "
@@ -305,7 +316,8 @@ CHECKS = {
              "enumerates every interleaving of ten cached queries and ten writes: texts that differ only in the case of a string literal, tables reached "
              "through an IN subquery, a join, a derived table, a CTE, UNION, a scalar subquery and a view, writes by INSERT / UPDATE / DELETE / TRUNCATE and "
              "DROP + CREATE of a table. TLC validates every answer - served from the cache or not - against EvalQ on the specification state; the run is "
-             "rejected as vacuous if no answer came from the cache.",
+             "rejected as vacuous if no answer came from the cache. The model constant Fill = 2 makes every miss be filled by two readers that missed at "
+             "the same time (the second store replaces an entry with the same signature); both variants are run.",
         note=TRUST + "Quick: histories of <= 3 actions after the setup, thorough <= 4. The adapter itself is test code and out of reach; changes in "
              "crates/vibesql-executor/src/cache/*.rs are observed. One known finding (view over a written base table) is reported as KNOWN-FINDING."),
     "C26": dict(
